@@ -374,6 +374,8 @@ sqf::runtime::runtime::result sqf::runtime::runtime::execute(sqf::runtime::runti
             m_run_timestamp = std::chrono::system_clock::now();
             m_is_halt_requested = false;
             m_state = state::running;
+            // Without a script the run is over at once
+            res = result::empty;
             while (!m_contexts.empty())
             {
                 for (size_t i = 0; i < m_contexts.size(); i++)
